@@ -82,11 +82,12 @@ type Out struct {
 	Extra    map[string]interface{}
 	ShardMax int
 	ShardBytes int
+	Scope      string
 }
 
 func New(dir, prop, runner, caseType, rule string) *Out {
 	return &Out{Dir: dir, Prop: prop, Runner: runner, CaseType: caseType, Rule: rule,
-		Hist: map[string]int{}, Extra: map[string]interface{}{}, ShardMax: 250, ShardBytes: 40000}
+		Hist: map[string]int{}, Extra: map[string]interface{}{}, ShardMax: 250, ShardBytes: 40000, Scope: "N_scope"}
 }
 
 func (o *Out) Add(c Case) int {
@@ -138,7 +139,7 @@ func (o *Out) Finish() error {
 			j++
 		}
 		var sb strings.Builder
-		fmt.Fprintf(&sb, "From %s Require Import %s.\nFrom Coq Require Import List NArith ZArith String.\nImport ListNotations.\nOpen Scope N_scope.\n", moduleRoot(o.Runner), moduleLeaf(o.Runner))
+		fmt.Fprintf(&sb, "From %s Require Import %s.\nFrom Coq Require Import List NArith ZArith String.\nImport ListNotations.\nOpen Scope %s.\n", moduleRoot(o.Runner), moduleLeaf(o.Runner), o.Scope)
 		fmt.Fprintf(&sb, "Definition cases : list (N * %s) := [\n", o.CaseType)
 		first := true
 		for _, c := range o.Cases[i:j] {
@@ -149,7 +150,7 @@ func (o *Out) Finish() error {
 				sb.WriteString(";\n")
 			}
 			first = false
-			fmt.Fprintf(&sb, " (%d, %s)", c.Idx, c.Coq)
+			fmt.Fprintf(&sb, " (%d%%N, %s)", c.Idx, c.Coq)
 		}
 		sb.WriteString("\n].\n")
 		sb.WriteString("Definition R_all := Eval vm_compute in evaluate cases.\n")
